@@ -70,6 +70,17 @@ Definition first_index (cs : list chunk) : Z :=
   | [] => 0
   end.
 
+(* positional vocabulary used by the step characterisation *)
+Definition is_rising (k : kind) : bool := match k with Rising => true | Falling => false end.
+
+(* the list u has an edge of kind k at position p (p >= 1: the sample before is inside u) *)
+Definition edge_at (u : list bool) (p : Z) (k : kind) : Prop :=
+  1 <= p < zlen u /\ bit u p = is_rising k /\ bit u (p - 1) = negb (is_rising k).
+
+(* the run-length precondition on positions: after a change at i the level stays for more than m samples *)
+Definition wclean (m : Z) (u : list bool) : Prop :=
+  forall i j, 1 <= i -> i < j < zlen u -> bit u (i - 1) <> bit u i -> bit u j <> bit u i -> m < j - i.
+
 (* strictly increasing sample numbers *)
 Fixpoint inc (l : list ev) : Prop :=
   match l with
